@@ -5,10 +5,12 @@ package main
 import (
 	"bytes"
 	"context"
+	"crypto/tls"
 	"encoding/binary"
 	"fmt"
 	"io"
 	"net"
+	"strings"
 	"sync"
 	"time"
 
@@ -34,6 +36,7 @@ type srv17 struct {
 	tcpConns int
 	tcpSeen  [][]byte
 	udpSeen  int
+	tag      byte // byte 12 of every TCP reply: which server answered
 }
 
 func newSrv17(withTCP bool) (*srv17, string) {
@@ -127,6 +130,7 @@ func (s *srv17) serveTCP() {
 				copy(r, q[:2])
 				r[2] = 0x80
 				copy(r[4:12], "TCPREPLY")
+				r[12] = s.tag
 				frame := append([]byte{0, byte(len(r))}, r...)
 				switch mode {
 				case "ans":
@@ -285,5 +289,286 @@ func runC17(r *Run) {
 		r.Eval(fmt.Sprintf("%02x%02x/%d/%s", k.f0, k.f1, k.size, k.tcp), tc || k.tcp != "ans")
 		r.Count("tc=" + b01(tc) + ",tcp=" + k.tcp)
 	}
-	r.Finish("all 256 values of header byte 2 x {00,80,random} byte 3 x sizes {12,13,100,512,1232,4095} with TCP answering, plus TC-set (and 1/4 of TC-clear) replies with TCP side {close after query, half frame, connection refused}; thorough adds all 65536 flag combinations; non-trivial = TC set or TCP fault; distinct by flags/size/TCP mode")
+	runC17Routing(r)
+	r.Finish("all 256 values of header byte 2 x {00,80,random} byte 3 x sizes {12,13,100,512,1232,4095} with TCP answering, plus TC-set (and 1/4 of TC-clear) replies with TCP side {close after query, half frame, connection refused}; thorough adds all 65536 flag combinations; non-trivial = TC set or TCP fault; distinct by flags/size/TCP mode; routing: fresh upstreams built by NewUpstream with Opt = every subset of {Socks5 -> loopback observer, DialAddr -> the server with the URL naming a decoy server, Bootstrap -> decoy} and then random Opt (Socks5 -> loopback observer, DialAddr -> the server with the URL naming a decoy server, Bootstrap -> decoy, IdleTimeout, EnablePipeline, EnableHTTP3, TLSConfig) x {scheme written, omitted} x TC set/clear x TCP side {ans, close}: the TCP retry must arrive at the server that sent the truncated UDP reply, and nowhere else")
+}
+
+// ---- routing: "sent again over TCP to the same server" ----------------------
+//
+// The upstream is built by the real NewUpstream with every Opt field set that
+// could send the TCP half somewhere else than the UDP half. Three places can
+// see traffic: the server (UDP+TCP on one port), a decoy server (UDP+TCP on
+// another port; it is what the URL names when DialAddr is set, and what
+// Bootstrap points at) and an observer that plays "the socks5 address": it
+// completes the SOCKS5 greeting, records the CONNECT target and hangs up (it
+// never relays). "The server" of an exchange is the one that received the UDP
+// query and sent the UDP reply; the oracle asks that the TCP retry shows up
+// there, with the same query, and that no other place sees a TCP connection.
+
+type obs17 struct {
+	l       net.Listener
+	mu      sync.Mutex
+	conns   int
+	targets []string
+}
+
+func newObs17() *obs17 {
+	l, err := net.Listen("tcp", "127.0.0.1:0")
+	if err != nil {
+		fatal(err)
+	}
+	o := &obs17{l: l}
+	go func() {
+		for {
+			c, err := l.Accept()
+			if err != nil {
+				return
+			}
+			o.mu.Lock()
+			o.conns++
+			o.mu.Unlock()
+			go o.serve(c)
+		}
+	}()
+	return o
+}
+
+func (o *obs17) serve(c net.Conn) {
+	defer c.Close()
+	c.SetDeadline(time.Now().Add(2 * time.Second))
+	note := func(s string) {
+		o.mu.Lock()
+		o.targets = append(o.targets, s)
+		o.mu.Unlock()
+	}
+	var h [2]byte
+	if _, err := io.ReadFull(c, h[:]); err != nil {
+		note("closed-before-greeting")
+		return
+	}
+	if h[0] != 5 {
+		note(fmt.Sprintf("not-socks5:%02x%02x", h[0], h[1]))
+		return
+	}
+	if _, err := io.ReadFull(c, make([]byte, h[1])); err != nil {
+		return
+	}
+	c.Write([]byte{5, 0})
+	var req [4]byte
+	if _, err := io.ReadFull(c, req[:]); err != nil {
+		return
+	}
+	var host string
+	switch req[3] {
+	case 1:
+		var a [4]byte
+		io.ReadFull(c, a[:])
+		host = net.IP(a[:]).String()
+	case 4:
+		var a [16]byte
+		io.ReadFull(c, a[:])
+		host = net.IP(a[:]).String()
+	case 3:
+		var n [1]byte
+		io.ReadFull(c, n[:])
+		d := make([]byte, n[0])
+		io.ReadFull(c, d)
+		host = string(d)
+	}
+	var p [2]byte
+	io.ReadFull(c, p[:])
+	note(fmt.Sprintf("CONNECT %s:%d", host, binary.BigEndian.Uint16(p[:])))
+	// hang up: this observer is not a relay
+}
+
+func (o *obs17) snap() (int, []string) {
+	o.mu.Lock()
+	defer o.mu.Unlock()
+	return o.conns, append([]string(nil), o.targets...)
+}
+
+type snap17 struct{ udp, conns, seen int }
+
+func (s *srv17) snap() snap17 {
+	s.mu.Lock()
+	defer s.mu.Unlock()
+	return snap17{s.udpSeen, s.tcpConns, len(s.tcpSeen)}
+}
+
+func runC17Routing(r *Run) {
+	srv, srvAddr := newSrv17(true)
+	defer srv.close()
+	srv.tag = 'S'
+	decoy, decoyAddr := newSrv17(true)
+	defer decoy.close()
+	decoy.tag = 'D'
+	obs := newObs17()
+	defer obs.l.Close()
+	obsAddr := obs.l.Addr().String()
+
+	nUp := r.N(24, 240)
+	for i := 0; i < nUp; i++ {
+		// ---- a configuration: first every redirecting field alone and in pairs, then random mixes
+		var opt upstream.Opt
+		var optDesc []string
+		url := srvAddr
+		pick := func(bit, odds int) bool {
+			if i < 8 {
+				return i&bit != 0
+			}
+			return r.Rng.Intn(odds) != 0
+		}
+		if pick(1, 3) {
+			opt.Socks5 = obsAddr
+			optDesc = append(optDesc, "Socks5="+obsAddr)
+		}
+		if pick(2, 2) {
+			url = decoyAddr
+			opt.DialAddr = srvAddr
+			optDesc = append(optDesc, "DialAddr="+srvAddr)
+		}
+		if pick(4, 2) {
+			opt.Bootstrap = decoyAddr
+			opt.BootstrapVer = []int{0, 4, 6}[r.Rng.Intn(3)]
+			optDesc = append(optDesc, fmt.Sprintf("Bootstrap=%s/v%d", decoyAddr, opt.BootstrapVer))
+		}
+		if i >= 8 && r.Rng.Intn(2) == 0 {
+			opt.IdleTimeout = time.Duration(1+r.Rng.Intn(20)) * time.Second
+			optDesc = append(optDesc, "IdleTimeout="+opt.IdleTimeout.String())
+		}
+		if i >= 8 && r.Rng.Intn(3) == 0 {
+			opt.EnablePipeline = true
+			optDesc = append(optDesc, "EnablePipeline")
+		}
+		if i >= 8 && r.Rng.Intn(4) == 0 {
+			opt.EnableHTTP3 = true
+			optDesc = append(optDesc, "EnableHTTP3")
+		}
+		if i >= 8 && r.Rng.Intn(3) == 0 {
+			opt.TLSConfig = &tls.Config{ServerName: "c17.test"}
+			optDesc = append(optDesc, "TLSConfig{ServerName:c17.test}")
+		}
+		if r.Rng.Intn(2) == 0 {
+			url = "udp://" + url
+		}
+		u, err := upstream.NewUpstream(url, opt)
+		if err != nil {
+			r.Fail("NewUpstream refused a plain-UDP configuration", map[string]any{"addr": url, "opt": strings.Join(optDesc, " "), "err": err.Error()})
+			continue
+		}
+		// ---- a few exchanges on it
+		for x, nx := 0, 1+r.Rng.Intn(3); x < nx; x++ {
+			f0, f1 := byte(r.Rng.Intn(256)), byte(r.Rng.Intn(256))
+			if r.Rng.Intn(3) != 0 || (i < 8 && x == 0) {
+				f0 |= 2
+			}
+			tc := f0&2 != 0
+			mode := "ans"
+			if r.Rng.Intn(5) == 0 && !(i < 8 && x == 0) {
+				mode = "close"
+			}
+			size := []int{12, 100, 512, 1232}[r.Rng.Intn(4)]
+			for _, s := range []*srv17{srv, decoy} {
+				s.mu.Lock()
+				s.flags, s.size, s.tcpMode = [2]byte{f0, f1}, size, mode
+				s.mu.Unlock()
+			}
+			s0, d0 := srv.snap(), decoy.snap()
+			o0, tg0 := obs.snap()
+
+			q := make([]byte, 12+r.Rng.Intn(40))
+			r.Rng.Read(q)
+			id := r.U16()
+			binary.BigEndian.PutUint16(q, id)
+			q[2] &^= 0x80
+			ctx, cancel := context.WithTimeout(context.Background(), 4*time.Second)
+			resp, err := u.ExchangeContext(ctx, q)
+			cancel()
+
+			s1, d1 := srv.snap(), decoy.snap()
+			o1, targets := obs.snap()
+
+			what, from := "err", byte(0)
+			if err == nil && resp != nil && len(*resp) >= 13 && string((*resp)[4:12]) == "TCPREPLY" {
+				what, from = "tcp", (*resp)[12]
+			} else if err == nil && resp != nil && len(*resp) >= 12 && string((*resp)[4:12]) == "UDPREPLY" {
+				what = "udp"
+			} else if err == nil {
+				what = "other"
+			}
+			// the server of this exchange = whoever got the UDP query
+			var the, other *srv17
+			var theName string
+			var t0, t1, x0, x1 snap17
+			switch {
+			case s1.udp > s0.udp && d1.udp == d0.udp:
+				the, other, theName, t0, t1, x0, x1 = srv, decoy, "server "+srvAddr, s0, s1, d0, d1
+			case d1.udp > d0.udp && s1.udp == s0.udp:
+				the, other, theName, t0, t1, x0, x1 = decoy, srv, "decoy "+decoyAddr, d0, d1, s0, s1
+			}
+			_ = other
+			desc := map[string]any{"addr": url, "opt": strings.Join(optDesc, " "), "exchange_no": x, "udp_reply_flags": fmt.Sprintf("%02x%02x", f0, f1), "udp_reply_size": size,
+				"tcp_side": mode, "query": hx(q), "got": what, "err": fmt.Sprint(err), "udp_query_received_by": theName,
+				"server": srvAddr, "decoy": decoyAddr, "socks5_observer": obsAddr,
+				"tcp_at_server":          fmt.Sprintf("%d new conns, %d queries", s1.conns-s0.conns, s1.seen-s0.seen),
+				"tcp_at_decoy":           fmt.Sprintf("%d new conns, %d queries", d1.conns-d0.conns, d1.seen-d0.seen),
+				"tcp_at_socks5_observer": fmt.Sprintf("%d new conns %v", o1-o0, targets[len(tg0):])}
+			r.Eval(fmt.Sprintf("route/%s/%v/%s", strings.Join(optDesc, ","), tc, mode), true)
+			r.Count(fmt.Sprintf("route:tc=%s,socks5=%s,dialaddr=%s", b01(tc), b01(opt.Socks5 != ""), b01(opt.DialAddr != "")))
+			if the == nil {
+				// the UDP query reached neither or both: which address a configuration means is C18's
+				// subject; without a server of the exchange there is nothing to say here
+				r.Count("route:no-single-udp-receiver")
+				continue
+			}
+			var where []string
+			if t1.conns > t0.conns || t1.seen > t0.seen {
+				where = append(where, "server")
+			}
+			if x1.conns > x0.conns || x1.seen > x0.seen {
+				where = append(where, "other")
+			}
+			if o1 > o0 {
+				where = append(where, "proxy")
+			}
+			if len(where) == 0 {
+				where = []string{"none"}
+			}
+			// ---- oracle
+			elsewhere := x1.conns > x0.conns || x1.seen > x0.seen || o1 > o0
+			switch {
+			case tc:
+				the.mu.Lock()
+				seen := append([][]byte(nil), the.tcpSeen[t0.seen:]...)
+				the.mu.Unlock()
+				sameQ := false
+				for _, b := range seen {
+					sameQ = sameQ || bytes.Equal(b, q)
+				}
+				if elsewhere {
+					r.Fail("UDP reply had TC set: the TCP retry opened a connection to another place than the server that sent the UDP reply", desc)
+				} else if !sameQ {
+					r.Fail("UDP reply had TC set, but the same query did not arrive over TCP at the server that sent the UDP reply", desc)
+				} else if mode == "ans" && (what != "tcp" || from != the.tag || binary.BigEndian.Uint16(*resp) != id) {
+					r.Fail("UDP reply had TC set and the server answers over TCP, but the caller did not get that TCP reply", desc)
+				} else if mode != "ans" && what != "err" {
+					r.Fail("UDP reply had TC set and the TCP exchange failed, but the caller got a reply instead of the error", desc)
+				}
+			default:
+				if what != "udp" {
+					r.Fail("UDP reply without TC was not returned to the caller", desc)
+				}
+				if elsewhere || where[0] != "none" {
+					r.Fail("a TCP connection was opened for a reply without TC", desc)
+				}
+			}
+			// ---- model line (the model has one server and, when Socks5 is set, one proxy)
+			m := "ans"
+			if mode != "ans" {
+				m = "fail"
+			}
+			r.Line(fmt.Sprintf("route %02x%02x%02x%02x %s %s", q[0], q[1], f0, f1, m, b01(opt.Socks5 != "")), what+" "+strings.Join(where, "+"))
+		}
+		u.Close()
+	}
 }
